@@ -73,10 +73,12 @@ package util
 //@   requires max >= 0
 //@   ensures [C06 truncation] r == ite(len(val) > max, substr(val, 0, max), val)
 
+//@ ufunc add_yaml(file string) string
 //@ fn AddYamlExtension(file) (r)
 //@   props C18
 //@   trusted
-//@   pure
+//@   noeffect
+//@   ensures r == add_yaml(file)
 
 //@ fn SplitCommand(cmdStr) (cmd, args)
 //@   props C13
